@@ -65,3 +65,20 @@ Theorem C03_refusal_pinned_refuted : forall eqfold,
   exists resp, serve eqfold false mux_empty (MSearch 2 [] 0 0 0 0 false [] [] []) = Refuse resp /\ r_app resp = 24%Z.
 Proof. exact serve_refusal_pinned_refuted. Qed.
 Print Assumptions C03_refusal_pinned_refuted.
+
+(* histories of registration calls and served requests in any order: each
+   request is answered by the mux made of exactly the registrations that
+   precede it; serving leaves the mux as it was (no memory of earlier answers) *)
+Theorem C03_history : forall eqfold tagfix pre m post,
+  run_events eqfold tagfix mux_empty (pre ++ EvServe m :: post) =
+  run_events eqfold tagfix mux_empty pre ++
+  serve eqfold tagfix (build (regs_of pre)) m ::
+  run_events eqfold tagfix (build (regs_of pre)) post.
+Proof. exact run_events_history. Qed.
+Print Assumptions C03_history.
+
+Theorem C03_history_one_answer_each : forall eqfold tagfix mx evs,
+  length (run_events eqfold tagfix mx evs) =
+  length (List.filter (fun e => match e with EvServe _ => true | EvReg _ => false end) evs).
+Proof. exact run_events_length. Qed.
+Print Assumptions C03_history_one_answer_each.
